@@ -457,7 +457,7 @@ def stepHandle (s : St) (args impl : List String) : Option (St × StepOut) :=
     let switched := f.sw = .notYet ∧ r.2.1.sw ≠ .notYet
     some ({ s with t := r.1, files := setAt s.files i r.2.1, g := g, inClass := s.inClass && !switched },
           { obs := if known then obs else impl,
-            branch := s!"hread.{if !known then "unlinked" else if r.2.1.sw = .bad then "badswitch" else if switched then "switch" else if f.sw ≠ .notYet then "disk" else "mem"}",
+            branch := s!"hread.{if !known then "unlinked" else if r.2.1.sw = .bad then "badswitch" else if switched then (if f.moff > 0 then "switch+mid" else "switch") else if f.sw ≠ .notYet then "disk" else "mem"}",
             propfails := if fails.isEmpty then generic else fails })
   | ["hreadat", ht, nt, ot] => do
     let i ← handle? ht
@@ -472,7 +472,7 @@ def stepHandle (s : St) (args impl : List String) : Option (St × StepOut) :=
     let switched := f.sw = .notYet ∧ r.2.1.sw ≠ .notYet
     some ({ s with t := r.1, files := setAt s.files i r.2.1, g := g, inClass := s.inClass && !switched },
           { obs := if known then obs else impl,
-            branch := s!"hreadat.{if !known then "unlinked" else if r.2.1.sw = .bad then "badswitch" else if switched then "switch" else if f.sw ≠ .notYet then "disk" else "mem"}",
+            branch := s!"hreadat.{if !known then "unlinked" else if r.2.1.sw = .bad then "badswitch" else if switched then (if f.moff > 0 then "switch+mid" else "switch") else if f.sw ≠ .notYet then "disk" else "mem"}",
             propfails := if fails.isEmpty then generic else fails })
   | ["hsize", ht] => do
     let i ← handle? ht
@@ -485,7 +485,7 @@ def stepHandle (s : St) (args impl : List String) : Option (St × StepOut) :=
     let switched := f.sw = .notYet ∧ r.2.1.sw ≠ .notYet
     some ({ s with t := r.1, files := setAt s.files i r.2.1, g := g, inClass := s.inClass && !switched },
           { obs := if known then obs else impl,
-            branch := s!"hsize.{if !known then "unlinked" else if r.2.1.sw = .bad then "badswitch" else if switched then "switch" else if f.sw ≠ .notYet then "disk" else "mem"}",
+            branch := s!"hsize.{if !known then "unlinked" else if r.2.1.sw = .bad then "badswitch" else if switched then (if f.moff > 0 then "switch+mid" else "switch") else if f.sw ≠ .notYet then "disk" else "mem"}",
             propfails := if fails.isEmpty then generic else fails })
   | ["hclose", ht] => do
     let i ← handle? ht
